@@ -161,6 +161,11 @@ int FsDropInService::prepDropInWatcherEventLoop(const std::string& dir) {
       IN_DELETE_SELF;
   if ((inotifywd_ = ::inotify_add_watch(inotifyfd_, dir.c_str(), mask)) < 0) {
     OLOG << "inotify_add_watch: " << Util::strerror_r();
+    // tick() retries every interval while the directory is unavailable: do
+    // not leave one inotify instance behind per attempt
+    ::close(inotifyfd_);
+    inotifyfd_ = -1;
+    inotifywd_ = -1;
     return 1;
   }
 
@@ -171,6 +176,9 @@ int FsDropInService::prepDropInWatcherEventLoop(const std::string& dir) {
   ev.data.fd = inotifyfd_;
   if (::epoll_ctl(epollfd_, EPOLL_CTL_ADD, inotifyfd_, &ev) < 0) {
     OLOG << "epoll_ctl: " << Util::strerror_r();
+    ::close(inotifyfd_);
+    inotifyfd_ = -1;
+    inotifywd_ = -1;
     return 1;
   }
 
